@@ -39,6 +39,11 @@ def control_devs(s):
            ("ctl_clock", [{"kind": "clock", "t": 5 * H, "link": "p2", "value": "CLOSED"}]),
            ("ctl_pressure", [{"kind": "pressure", "node": "J2" if any(n["n"] == "J2" for n in s["nodes"]) else "J1", "rel": "<", "thr": 30.0, "link": "p2", "value": "OPEN"}]),
            ("ctl_pressure_nonstrict", [{"kind": "pressure", "node": "J2" if any(n["n"] == "J2" for n in s["nodes"]) else "J1", "rel": "<=", "thr": 30.0, "link": "p2", "value": "OPEN"}])]      # (a second control closing p2 on high pressure would undo itself: chattering, ill-posed)
+    # rules on the simulation time whose bound is a rule step AND a report step: the strict and the non-strict relation differ
+    # in that very report row
+    for rel in (">", ">=", "<", "<="):
+        out.append(("ctl_rule_time_%s" % {">": "gt", ">=": "ge", "<": "lt", "<=": "le"}[rel],
+                    [{"kind": "time", "rel": rel, "t": 3 * H, "link": "p2", "value": "CLOSED", "else_value": "OPEN", "rule": True, "prio": 3}]))
     if tank:
         out.append(("ctl_level", [{"kind": "level", "node": "T", "rel": ">", "thr": 3.4, "link": src, "value": "CLOSED"},
                                   {"kind": "level", "node": "T", "rel": "<", "thr": 2.6, "link": src, "value": "OPEN"}]))
